@@ -1190,9 +1190,26 @@ def c04_length_expr(ctx, res):
         params = [a.arg for a in fn.args.args]
         selfname = params[0]
         subst, multi = {}, set()
+        # `if c: x = a  else: x = b` is the statement form of x = a if c else b
+        merged = {}
+        for n2 in ast.walk(fn):
+            if isinstance(n2, ast.If) and len(n2.body) == 1 \
+                    and len(n2.orelse) == 1 \
+                    and all(isinstance(b, ast.Assign) and len(b.targets) == 1
+                            and isinstance(b.targets[0], ast.Name)
+                            for b in (n2.body[0], n2.orelse[0])) \
+                    and n2.body[0].targets[0].id == n2.orelse[0].targets[0].id:
+                nm = n2.body[0].targets[0].id
+                merged[id(n2.body[0])] = merged[id(n2.orelse[0])] = nm
+                if nm in subst:
+                    multi.add(nm)
+                subst[nm] = ast.IfExp(n2.test, n2.body[0].value,
+                                      n2.orelse[0].value)
         for n2 in ast.walk(fn):
             if isinstance(n2, ast.Assign) and len(n2.targets) == 1 \
                     and isinstance(n2.targets[0], ast.Name):
+                if id(n2) in merged:
+                    continue
                 nm = n2.targets[0].id
                 if nm in subst:
                     multi.add(nm)
